@@ -147,6 +147,10 @@ package transport
 // ---- C14: the standard transport's host-key callback, user and timeout --------------------------------------------------
 //@ func (*Standard).openSession
 //@   noverify
+//@ ghost keyFile []byte local
+//@ ghost keySigner any local
+//@ ghost keyMethod any local
+//@ ghost pwMethod any local
 //@ func (*Standard).openBase$1 [C11]
 //@   noverify
 //@   flows [C11] #keyboard-interactive-answers a.Password only to return
@@ -156,6 +160,19 @@ package transport
 //@   at call! openSession#1 assert #strict-checks-against-the-known-hosts-file t.SSHArgs.StrictKey ==> t.SSHArgs.KnownHostsFile != "" && arg1.HostKeyCallback == knownHostsCB(strs(t.SSHArgs.KnownHostsFile))
 //@   at call! openSession#1 assert #checking-skipped-only-when-disabled !t.SSHArgs.StrictKey ==> arg1.HostKeyCallback == insecureCB()
 //@   at call! openSession#1 assert #configured-user-and-timeout arg1.User == a.User && arg1.Timeout == a.TimeoutSocket
+// the identity: the configured key file is read, parsed, and offered as the first authentication method; the password
+// (when set) is offered after it as password and keyboard-interactive; nothing else is offered
+//@   at call! ReadFile#1 assert #the-configured-key-file-is-read arg0 == t.SSHArgs.PrivateKeyPath
+//@   after call ReadFile#1 set keyFile = result.0
+//@   at call! ParsePrivateKey#1 assert #the-bytes-of-the-key-file-are-parsed arg0 == keyFile
+//@   after call ParsePrivateKey#1 set keySigner = result.0
+//@   at call! PublicKeys#1 assert #the-parsed-key-is-the-public-key-method len(arg0) == 1 && arg0[0] == keySigner
+//@   after call PublicKeys#1 set keyMethod = result
+//@   at call! Password#1 assert #the-configured-password-is-the-password-method arg0 == a.Password
+//@   after call Password#1 set pwMethod = result
+//@   at call! openSession#1 assert #the-configured-key-is-offered-first t.SSHArgs.PrivateKeyPath != "" ==> len(arg1.Auth) >= 1 && arg1.Auth[0] == keyMethod
+//@   at call! openSession#1 assert #the-password-is-offered-after-the-key a.Password != "" ==> len(arg1.Auth) >= (t.SSHArgs.PrivateKeyPath != "" ? 3 : 2) && arg1.Auth[(t.SSHArgs.PrivateKeyPath != "" ? 1 : 0)] == pwMethod
+//@   at call! openSession#1 assert #nothing-but-the-configured-methods-is-offered len(arg1.Auth) == (t.SSHArgs.PrivateKeyPath != "" ? 1 : 0) + (a.Password != "" ? 2 : 0)
 
 //@ func transport.Implementation.Read
 //@   trusted
